@@ -2,7 +2,7 @@
    Only pinned statements, `exact`, Examples by vm_compute, and Print Assumptions. *)
 From Coq Require Import String List NArith ZArith PArith Bool FMapPositive.
 From Sylt Require Import Syntax.Resolved Types.TyGraph Types.Tc Types.Ctx Types.TcInv Types.Reject Types.Mismatch
-  Types.CopyInst Types.Calls Types.CallsDecl Types.BlobFields Types.FieldAssign Types.TwoDecls Types.ForwardDecl.
+  Types.CopyInst Types.Calls Types.CallsDecl Types.BlobFields Types.FieldAssign Types.TwoDecls Types.ForwardDecl Types.DeclOrder.
 Import ListNotations.
 Local Open Scope string_scope.
 
@@ -295,18 +295,19 @@ Theorem C03_forward_enum_mention : forall
     typecheck fuel (mkResolved vars stmts) <> Ok tt.
 Proof. exact ForwardDecl.C03_forward_enum_mention_rejected. Qed.
 
-(* the placement theorem behind them: d0 a type declaration anywhere (first pass), d1 establishing its invariant under
-   the one of d0 (second pass), e rejected under it *)
-Theorem C03_after_type_declaration : forall (Inv0 Inv1 : st -> Prop) (d0 d1 : stmt) (e : expr),
-  is_type_decl d0 = true ->
+(* the placement theorem behind them: some statement declares the type variable v0 and every declaration of v0 establishes
+   Inv0 (first pass of solve: the type declarations in DeclOrder.type_decl_order, /repo 58eff66); d1 establishes Inv1
+   under Inv0 (second pass); e is rejected under Inv1 *)
+Theorem C03_after_type_declaration : forall (Inv0 Inv1 : st -> Prop) (v0 : N) (d1 : stmt) (e : expr),
   (forall s s', wf s -> ext s s' -> Inv0 s -> Inv0 s') ->
   (forall s s', wf s -> ext s s' -> Inv1 s -> Inv1 s') ->
-  (forall kinds g f s u s', wf s -> outer_statement kinds (gfix g) (afix kinds (gfix g) f) d0 ctx_new s = Ok (u, s') -> Inv0 s') ->
+  (forall d kinds g f s u s', DeclOrder.decl_var d = Some v0 -> wf s ->
+     outer_statement kinds (gfix g) (afix kinds (gfix g) f) d ctx_new s = Ok (u, s') -> Inv0 s') ->
   (forall kinds g f s u s', wf s -> Inv0 s -> outer_statement kinds (gfix g) (afix kinds (gfix g) f) d1 ctx_new s = Ok (u, s') -> Inv1 s') ->
   (forall kinds g f ctx s, wf s /\ Inv1 s -> notok (r_expr (afix kinds (gfix g) f) e ctx s)) ->
   forall pre mid post dname dvar dkind dty (C : ectx) dsp sp0 fuel vars,
     let stmts := (pre ++ d1 :: mid ++ SDefinition dname dvar dkind dty (plug_e e (SStatementExpression e sp0) C) dsp :: post)%list in
-    In d0 stmts ->
+    (exists d0, In d0 stmts /\ DeclOrder.decl_var d0 = Some v0) ->
     typecheck fuel (mkResolved vars stmts) <> Ok tt.
 Proof. exact ForwardDecl.rejected_after_type_decl. Qed.
 
